@@ -7,6 +7,7 @@ package merkleref
 import (
 	"crypto/sha256"
 	"encoding/binary"
+	"sync"
 )
 
 type Hash = [32]byte
@@ -48,6 +49,7 @@ func RecordData(seed int64, i int64) []byte {
 // Tree is a log of records with memoised subtree hashes.
 type Tree struct {
 	Leaves [][]byte
+	mu     sync.Mutex // guards memo (hash queries may come from several goroutines)
 	memo   map[[2]int64]Hash
 }
 
@@ -76,6 +78,12 @@ func split(n int64) int64 {
 
 // MTH is the Merkle Tree Hash of D[lo:hi] (RFC 6962 section 2.1).
 func (t *Tree) MTH(lo, hi int64) Hash {
+	t.mu.Lock()
+	defer t.mu.Unlock()
+	return t.mth(lo, hi)
+}
+
+func (t *Tree) mth(lo, hi int64) Hash {
 	if hi == lo {
 		return sha256.Sum256(nil)
 	}
@@ -87,13 +95,17 @@ func (t *Tree) MTH(lo, hi int64) Hash {
 		return h
 	}
 	k := split(hi - lo)
-	h := nodeHash(t.MTH(lo, lo+k), t.MTH(lo+k, hi))
+	h := nodeHash(t.mth(lo, lo+k), t.mth(lo+k, hi))
 	t.memo[key] = h
 	return h
 }
 
 // Path is the Merkle audit path PATH(m, D[0:n]) (RFC 6962 section 2.1.1).
-func (t *Tree) Path(m, n int64) []Hash { return t.path(m, 0, n) }
+func (t *Tree) Path(m, n int64) []Hash {
+	t.mu.Lock()
+	defer t.mu.Unlock()
+	return t.path(m, 0, n)
+}
 
 func (t *Tree) path(m, lo, hi int64) []Hash {
 	if hi-lo == 1 {
@@ -101,26 +113,30 @@ func (t *Tree) path(m, lo, hi int64) []Hash {
 	}
 	k := split(hi - lo)
 	if m < lo+k {
-		return append(t.path(m, lo, lo+k), t.MTH(lo+k, hi))
+		return append(t.path(m, lo, lo+k), t.mth(lo+k, hi))
 	}
-	return append(t.path(m, lo+k, hi), t.MTH(lo, lo+k))
+	return append(t.path(m, lo+k, hi), t.mth(lo, lo+k))
 }
 
 // Proof is the consistency proof PROOF(m, D[0:n]) (RFC 6962 section 2.1.2), 0 < m <= n.
-func (t *Tree) Proof(m, n int64) []Hash { return t.subproof(m, 0, n, true) }
+func (t *Tree) Proof(m, n int64) []Hash {
+	t.mu.Lock()
+	defer t.mu.Unlock()
+	return t.subproof(m, 0, n, true)
+}
 
 func (t *Tree) subproof(m, lo, hi int64, b bool) []Hash {
 	if m == hi-lo {
 		if b {
 			return nil
 		}
-		return []Hash{t.MTH(lo, hi)}
+		return []Hash{t.mth(lo, hi)}
 	}
 	k := split(hi - lo)
 	if m <= k {
-		return append(t.subproof(m, lo, lo+k, b), t.MTH(lo+k, hi))
+		return append(t.subproof(m, lo, lo+k, b), t.mth(lo+k, hi))
 	}
-	return append(t.subproof(m-k, lo+k, hi, false), t.MTH(lo, lo+k))
+	return append(t.subproof(m-k, lo+k, hi, false), t.mth(lo, lo+k))
 }
 
 // VerifyInclusion is RFC 9162 section 2.1.3.2.
